@@ -462,7 +462,9 @@ def get_gpytorch_model_w_known_hyperparams(
         initial_values = Y[initial_indices]
 
         model.add_sample(initial_points, initial_values)
-        model.update()
+
+    # Condition the GP on exactly the samples held now (none when no initial samples are requested).
+    model.update()
 
     return model
 
@@ -831,6 +833,8 @@ def get_gpytorch_modellist_w_known_hyperparams(
             initial_values[np.arange(initial_sample_cnt), initial_pt_obj_indices[:, 1]],
             initial_pt_obj_indices[:, 1],
         )
-        model.update()
+
+    # Condition the GPs on exactly the samples held now (none when no initial samples are requested).
+    model.update()
 
     return model
